@@ -105,6 +105,48 @@ CLAIMS = {
   design="DESIGN.md §4 C10",
   note="Histories are covered inductively (one step from an arbitrary valid connection set, <= 2 servers x <= 2 "
        "connections); ares_sortaddrinfo's probe sockets and ares_destroy teardown are not yet covered."),
+ "C03": dict(
+  text="Bounded model checking (CBMC) of the real record/codec code (no stubs): per RR type build through the public setters "
+       "with symbolic values -> ares_dns_write -> <= 65535 -> ares_dns_parse -> every key equal through the public getters -> "
+       "write again -> identical bytes; header flag/opcode/rcode matrix; ares_dns_write_buf_tcp into a buffer already "
+       "holding P bytes equals ares_dns_write of the same record (compression shapes); ares_nameoffset_find with symbolic "
+       "offsets up to 70000 and the name writer at boundary offsets; escapes; legacy query builders; ares_dnsrec_convert_cb.",
+  design="DESIGN.md §4 C03, §8",
+  note="Names, strings, types and validated header values are concrete per job (shape enumeration), all other field values "
+       "symbolic; <= 2 RRs per record; sizes near 16 KiB / 64 KiB only as offset arithmetic. Open known finding "
+       "write_unparseable_string."),
+ "C04": dict(
+  text="Differential bounded model checking (CBMC): the real ares_dns_parse and an independent RFC reference decoder "
+       "(harness/C04/refdec.c, validated natively on the repository's fuzz corpus and ~5000 generated inputs each run of "
+       "validate_refdec.sh) run on the SAME symbolic-valued wire bytes per shape; every header, question and RR field must "
+       "agree whenever the parser accepts, and the parser must accept whatever the reference calls well-formed in the "
+       "stated subset.",
+  design="DESIGN.md §4 C04, §8",
+  note="One question + one RR per message, type/class/lengths concrete per shape; supported subset stated in refdec.h (e.g. "
+       "non-empty CAA value, ascending SVCB keys). Open known finding opt_duplicate_merged."),
+ "C15": dict(
+  text="Bounded model checking (CBMC) of the real configuration text parsers on symbolic bytes at concrete lengths: resolv.conf "
+       "option tokens, nameserver strings, sortlists, resolv.conf lines (incl. the metamorphic junk-line independence), "
+       "host aliases, inet_pton: no out-of-bounds access of the fixed buffers, no leak, only success/no-memory from line "
+       "handlers, results within documented ranges.",
+  design="DESIGN.md §4 C15",
+  note="ares_array replaced by a fixed-capacity reference in these jobs; ares_inet_pton contract-stubbed in the deeper jobs "
+       "(real converter checked separately); ares_uri.c, hosts file, nsswitch/svc.conf readers outside the claim."),
+ "C16": dict(
+  text="Bounded model checking (CBMC): ares_sysconfig_apply never changes a field whose option bit is set (symbolic mask and "
+       "values); ares_save_options -> ares_init_by_options reproduces every saved field; server address text render/parse "
+       "round trip; inet_ntop/pton on all 2^32 IPv4 addresses; ares_dup copies the non-option settings.",
+  design="DESIGN.md §4 C16",
+  note="Server text round trip proved in two halves meeting at a text model; dns:// URI form (differing ports) outside the claim; "
+       "heavy setters are recorders in the user-wins kernel."),
+ "C18": dict(
+  text="Differential bounded model checking (CBMC): each of the 11 legacy ares_parse_*_reply functions against the record "
+       "API on the same symbolic-valued message shapes (1-2 answers, optional CNAME, truncation / RDLENGTH faults): "
+       "malformed iff the record parser rejects, results equal in order and field by field, caller capacity never "
+       "exceeded (exact-size arrays), everything released by the matching free function; ares_data type tags.",
+  design="DESIGN.md §4 C18",
+  note="Shapes with concrete names/types; TTLs < 2^31. Open known finding legacy_nodata_success (pinned by the repository's "
+       "own tests)."),
 }
 NA = {}
 for i in range(1, 21):
